@@ -59,6 +59,12 @@ func genC07(t *rapid.T) HistCase {
 		p.BundlePct = 85
 		p.Hosts = []string{"h1.local", "h2.local", "h3.local", "h4.local", "h5.local"}
 		p.MinIng, p.MaxIng = 4, 8
+		// one namespace, own host and (mostly) own service per ingress: the ingresses are linked by the feature only
+		p.NS = p.NS[:1]
+		p.Sparse = true
+		p.Svcs = []string{"s1", "s2", "s3", "s4", "s5", "s6"}
+		p.EmptyHost, p.DefBackend, p.MultiTLS = false, false, false
+		p.IngDeletePct = 30
 		p.GlobalKeys = []annChoice{
 			{"external-has-lua", []string{"true"}},
 			{"auth-proxy", []string{"_front__auth:14415-14499", "_front__auth:14415-14499", "_front__auth:14415-14418", "_front__auth:14415-14416"}},
